@@ -390,7 +390,8 @@ where
         let r = match self.refs.get(old.id)? {
             XRef::Free { .. } => panic!(),
             XRef::Raw { gen_nr, .. } => PlainRef { id: old.id, gen: gen_nr },
-            XRef::Stream { .. } => return self.create(obj),
+            // objects in object streams have generation 0; the new value is written as a direct object under the same number
+            XRef::Stream { .. } => PlainRef { id: old.id, gen: 0 },
             XRef::Promised => PlainRef { id: old.id, gen: 0 },
             XRef::Invalid => panic!()
         };
